@@ -1,8 +1,8 @@
 Require Extraction.
 Require Import ExtrOcamlBasic ExtrOcamlString.
 From Coq Require Import ZArith NArith List String.
-From RC Require Import lib.Pep440 lib.Name model.Merge model.Graph.
+From RC Require Import lib.Pep440 lib.Name model.Merge model.Graph model.Solver model.Check.
 Extraction Language OCaml.
 Extraction "../build/ocaml/C10/model.ml" N.succ Z.succ Pos.succ Nat.add
   vcmp is_prerelease clause_match spec_contains norm safe_name merge reduce accepts
-  empty_graph add_dist remove_dists node_extras build_constraints visit_nodes gstep grun alookup slookup.
+  empty_graph add_dist remove_dists node_extras build_constraints visit_nodes gstep grun alookup slookup coherent_b.
